@@ -55,7 +55,7 @@ def eval_case(case):
         key, state = W.replay(case["history"])
         chain = case["chain"]
         if any(not wk.permitted(state[1], c, W.vals) for c in chain):
-            return []
+            return ["not permitted"] if case.get("want_run") else []
         # the Go binding adjusts ONE key object again and again: its slot array is (re)allocated to parent.l entries once and every
         # later adjustment works in place, so entries beyond the current l are whatever an earlier state (or malloc) left there.
         # The result must not depend on that content: it is enumerated (canary bytes, zeros, a foreign key's valid-looking slots).
@@ -129,6 +129,21 @@ def eval_long(case):
             sub = dict(case, sub="nd", l=wk.LONG_L, sig=(n % 2 == 1), history=[["keygen", {"e": [], "omit": False}]], chain=[A, B])
             m2 = eval_case(sub)
             msgs += ["adjust_nondelegable from %d to %d entries: %s" % (len(A["e"]), len(B["e"]), m) for m in m2[:2]]
+    # a DELEGATED parent: its first three entries of F are fixed, and the lists repeat them (several list entries in front of the parent's first
+    # free slot - the merge cursors must skip all of them; seeded C11-r7a stepped over one per round)
+    if n >= 5:
+        hist = [["keygen", {"e": F["e"][:3], "omit": False}]]
+        Ts2 = [{"e": F["e"][:3], "omit": False}, {"e": F["e"][:-1], "omit": False}, {"e": F["e"][:3] + F["e"][4:], "omit": False}, {"e": mid, "omit": False}]
+        ran = 0
+        for T in Ts2:
+            for A, B in ((F, T), (T, F)):
+                sub = dict(case, sub="nd", l=wk.LONG_L, sig=(n % 2 == 1), history=hist, chain=[A, B], want_run=True)
+                m2 = eval_case(sub)
+                if m2 != ["not permitted"]:
+                    ran += 1
+                    msgs += ["adjust_nondelegable under a parent with 3 fixed slots, from %d to %d entries: %s" % (len(A["e"]), len(B["e"]), m) for m in m2[:2]]
+        if ran < 4:
+            msgs.append("vacuous: only %d adjustments under the delegated parent were permitted" % ran)
     return msgs
 
 
@@ -168,7 +183,7 @@ def run_shard(ctx, shard):
     if sub == "long":
         case = {"sub": "long", "cfg": shard.get("cfg", "asm"), "seed": seed, "n": shard["n"]}
         msgs = eval_long(case)
-        ctx.ok(True, "long-lists", n=28)
+        ctx.ok(True, "long-lists", n=36)
         if msgs:
             ctx.fail(case, "; ".join(msgs[:3]), sig="long-lists")
         return
